@@ -4,36 +4,35 @@ import RulioProofs.CacheInst
 /-! # C17 — the location cache is transparent (property theorems only)
 
 Model: `RulioModel/Cache.lean` (sequential semantics `reqE`/`runE`, direct operation `reqD`/`runD`, concurrent
-semantics `cstep`/`crun` over the atomic steps O, G, C, X, R extracted from sys/system.go).
-Helper lemmas: `RulioProofs/Cache.lean`.  Hypotheses are explicit structures: `ReloadOK` (what C06 establishes),
-`ReqOK` (no marker-erasing operation and no unchecked, never released open while existence is checked). -/
+semantics `cstep`/`crun` over the atomic steps O, X, R of sys/system.go: `Pending` counts the holders, every Open is
+followed by a Release, a checked request served from the cache looks at the marker again, `ClearLocation` keeps the
+marker).  Helper lemmas: `RulioProofs/Cache.lean`.  The one explicit hypothesis is `ReloadOK` (what C06 establishes;
+discharged for the State model below). -/
 
 variable {sem : LocSem}
 
 /-- **Sequential transparency.** For every location semantics for which reloading from storage is the identity
 on observations (`ReloadOK`, the statement of C06, an explicit hypothesis), every cache configuration (TTL never /
 finite / forever, CachePending on or off, CheckExistence on or off), every start-up storage, every request history
-and every pair of clock-reading sequences: the results through the System equal the results of operating each
-location directly (loaded once, never reloaded).  With existence checking on, the history must not erase the
-`createdAt` marker nor contain `GetLocation` (see the negative theorems below for why). -/
+— any API method (also those that erase the `createdAt` marker), `CreateLocation`, `GetLocation` — and every pair of
+clock-reading sequences: the results through the System equal the results of operating each location directly (loaded
+once, never reloaded; a checked request fails exactly when the location does not carry the marker at that moment). -/
 theorem cache_transparent_seq (h : ReloadOK sem) (cfg : Cfg) (s0 : List (String × sem.S))
-    (h1 h2 : List (Req sem × Int × Int)) (hs : SameReqs h1 h2)
-    (hok : ∀ x ∈ h1, ReqOK sem cfg.checkExistence x.1) :
+    (h1 h2 : List (Req sem × Int × Int)) (hs : SameReqs h1 h2) :
     (runE cfg { store := s0 } h1).2 = (runD cfg.checkExistence { base := s0 } h2).2 :=
-  run_sim h cfg h1 h2 _ _ hs hok (init_sim h cfg.checkExistence s0).1 (init_sim h cfg.checkExistence s0).2
+  run_sim h cfg h1 h2 _ _ hs (init_sim h s0).1 (init_sim h s0).2
 
 /-- **TTL independence.** Two Systems that differ only in their cache settings (TTL, CachePending) and in what
-their clocks show return the same results for the same request history. -/
+their clocks show return the same results for the same request history — whatever the requests are. -/
 theorem cache_ttl_independent (h : ReloadOK sem) (cfg1 cfg2 : Cfg) (hc : cfg1.checkExistence = cfg2.checkExistence)
-    (s0 : List (String × sem.S)) (h1 h2 : List (Req sem × Int × Int)) (hs : SameReqs h1 h2)
-    (hok : ∀ x ∈ h1, ReqOK sem cfg1.checkExistence x.1) (hok2 : ∀ x ∈ h2, ReqOK sem cfg2.checkExistence x.1) :
+    (s0 : List (String × sem.S)) (h1 h2 : List (Req sem × Int × Int)) (hs : SameReqs h1 h2) :
     (runE cfg1 { store := s0 } h1).2 = (runE cfg2 { store := s0 } h2).2 := by
   have hrefl : ∀ (b : List (Req sem × Int × Int)), SameReqs b b := by
     intro b
     induction b with
     | nil => trivial
     | cons y r ih => simp only [SameReqs]; exact ⟨trivial, ih⟩
-  rw [cache_transparent_seq h cfg1 s0 h1 h2 hs hok, cache_transparent_seq h cfg2 s0 h2 h2 (hrefl h2) hok2, hc]
+  rw [cache_transparent_seq h cfg1 s0 h1 h2 hs, cache_transparent_seq h cfg2 s0 h2 h2 (hrefl h2), hc]
 
 /-- **No creation when checking.** With CheckExistence on, if the storage holds no `createdAt` marker for `n` and
 the history never calls CreateLocation / GetLocation on `n`, then every request to `n` fails with NotFound, the
@@ -47,92 +46,166 @@ theorem no_create_when_checking (cfg : Cfg) (hc : cfg.checkExistence = true) (s0
     kget (runE cfg { store := s0 } hist).1.table n = none :=
   no_create_run cfg hc n (storeOf s0 n) hn hist _ hno rfl rfl
 
-/-- **Single load, window-free schedules (partial).**  N threads (N arbitrary) issue the first request for the same
-name; for every schedule of their atomic steps in which a thread that leaves `Open`'s table section with a fresh
-entry runs `Get` before anybody else moves: at most one load happens, every finished thread was handed instance 0,
-and as soon as one thread has finished exactly one load has happened.
-Full statement (all schedules) is FALSE for the code as written: see `single_load_open_window`. What is missing for
-the full clause is the one-line repair "lock the entry before unlocking the table", which makes every schedule
-window-free. -/
-theorem single_load_partial (cfg : Cfg) (hinst : installs cfg = true) (n : String) (store : List (String × sem.S))
-    (N : Nat) (sched : List (Nat × Int))
-    (hw : windowFree cfg (cinit store (List.replicate N (Req.peek n)) : CSt sem) sched = true) :
-    let c := crun cfg (cinit store (List.replicate N (Req.peek n)) : CSt sem) sched
-    c.loads.length ≤ 1 ∧ (∀ t i, instOf c t = some i → i = 0) ∧
-    (∀ t, isDone c t = true → c.loads = [n] ∧ instOf c t = some 0) :=
-  phase_facts n _ (phase_run cfg hinst n sched _ (phase_init n store N) hw)
+/-- **A checked request is never served an instance that does not carry the marker** — whatever state the cache is
+in (however the entry got there: an unchecked open by `GetLocation` / `CreateLocation`, an operation that erased the
+marker since, any TTL).  With CheckExistence on, whenever `Open` hands an instance to a checked request (only then does
+the request run its call; otherwise it answers NotFound), that instance carries the `createdAt` marker. -/
+theorem checked_request_never_served_unverified (cfg : Cfg) (hc : cfg.checkExistence = true) (st : SysSt sem) (n : String)
+    (now : Int) (l : sem.L) (h : (openE cfg st n true now).2 = some l) : sem.created l = true :=
+  openE_checked cfg hc st n now l h
 
-/-! ## Negative theorems: what the code as written does not guarantee (each witness is replayed on the real code
-by `checks/c17.py`) -/
+/-- **Unchecked opens do not open the door.** With CheckExistence on, if the storage holds no marker for `n` and the
+history never calls `CreateLocation n` — it may call `GetLocation n` (parents are resolved that way) and anything on
+other locations — then every checked request to `n` fails with NotFound and the storage of `n` stays what it was at
+start-up, under every TTL. -/
+theorem checked_requests_fail_until_created (cfg : Cfg) (hc : cfg.checkExistence = true) (s0 : List (String × sem.S))
+    (n : String) (hn : ∀ t, sem.created (sem.load t (storeOf s0 n)) = false)
+    (hist : List (Req sem × Int × Int)) (hno : ∀ x ∈ hist, x.1 ≠ .create n) :
+    (∀ p ∈ hist.zip (runE cfg { store := s0 } hist).2, ∀ op, p.1.1 = .api n op → p.2 = .notFound) ∧
+    storeOf (runE cfg { store := s0 } hist).1.store n = storeOf s0 n :=
+  unmarked_run cfg hc n (storeOf s0 n) hn hist _ hno ⟨rfl, fun e l he => by simp [kget] at he⟩
 
-/-- **`Open` releases the table lock before `Get` takes the entry lock** (system.go:157 vs 229).  TTL forever, two
-first requests `add 1`, `add 2` to "y": thread 0 runs O; thread 1 runs its whole request; thread 0 resumes.
-Two loads, two instances, both writes acknowledged, and a later request does not see thread 0's fact. -/
-theorem single_load_open_window :
-    let cfg : Cfg := { ttl := .forever, checkExistence := false }
-    let reqs : List (Req toySem) := [.api "y" (.add 1), .api "y" (.add 2), .api "y" (.has 1)]
-    let sched : List (Nat × Int) := [(0,0),(1,1),(1,2),(1,3),(1,4),(1,5),(0,6),(0,7),(0,8),(0,9),(2,10),(2,11),(2,12)]
-    let c := crun cfg (cinit [] reqs) sched
-    c.loads = ["y", "y"] ∧ instOf c 0 ≠ instOf c 1 ∧ outCodes c = [some 1, some 1, some 0] := by
-  decide
+/-- **Clearing a location does not un-create it.** For every location semantics whose `mark` sets the marker, the
+operations carried out the way `System.ClearLocation` does it (`keepMark`: read the marker, call, set it again when it
+was there and is gone) never erase the `createdAt` marker. -/
+theorem clear_keeps_existence (sem : LocSem) (isClear : sem.Op → Bool)
+    (hmc : ∀ l s, sem.created (sem.mark l s).1 = true) (op : sem.Op) (hop : isClear op = true) :
+    KeepsMarker (keepMark sem isClear) op :=
+  keepMark_keeps sem isClear hmc op hop
 
-/-- **`Pending` is a boolean, not a count** (system.go:107, 194).  TTL 10: A and B open "y" and share instance 0;
-A releases after the TTL (Pending := false, entry deleted although B still holds it); C loads instance 1 and
-releases (entry kept); B writes `add 7` through instance 0, is acknowledged and releases; D starts afterwards, is
-served instance 1 and does not see 7.  Under TTL forever the same schedule answers `true`. -/
-theorem pending_bool_stale :
+/-- **… and `ClearLocation` is covered by the transparency theorems**: if reloading is the identity on observations for
+a location semantics, it is for the semantics in which `ClearLocation` keeps the marker. -/
+theorem clear_keeps_reload (h : ReloadOK sem) (isClear : sem.Op → Bool) : Nonempty (ReloadOK (keepMark sem isClear)) :=
+  ⟨keepMark_reloadOK h isClear⟩
+
+/-- **Single load.**  N threads (N arbitrary) issue requests for the same name `n` that cannot fail the existence
+check (checking off, or `CreateLocation` / `GetLocation`); for **every** schedule of their atomic steps O / X / R, as
+long as the requests overlap (nobody has finished yet): at most one load has happened, every thread that was handed an
+instance was handed instance 0, and once a thread has an instance exactly one load has happened. -/
+theorem single_load (cfg : Cfg) (hinst : installs cfg = true) (n : String) (store : List (String × sem.S))
+    (reqs : List (Req sem)) (hreqs : ∀ r ∈ reqs, r.name = n ∧ (reqCheck r && cfg.checkExistence) = false)
+    (sched : List (Nat × Int)) :
+    let c := crun cfg (cinit store reqs : CSt sem) sched
+    (∀ t, isDone c t = false) →
+    c.loads.length ≤ 1 ∧ (∀ t i, instOf c t = some i → i = 0) ∧ (∀ t i, instOf c t = some i → c.loads = [n]) :=
+  fun hnd => phase_facts cfg n _ (phase_run cfg hinst n sched _ (phase_init cfg n store reqs hreqs)) hnd
+
+/-- **The instance in use is never dropped.**  Any requests (any names, checked or not), any schedule of the atomic
+steps O / X / R, any TTL: at every moment, all threads that hold an instance of a name (between their `Open` and
+their `Release`) hold the same instance, and it is the one the cache table has for that name — held (`Pending > 0`), so
+neither a `Release` by somebody else nor the TTL can drop it and the next `Open` is served the same instance. -/
+theorem single_instance_under_overlap (cfg : Cfg) (hinst : installs cfg = true) (store : List (String × sem.S))
+    (reqs : List (Req sem)) (sched : List (Nat × Int)) :
+    let c := crun cfg (cinit store reqs : CSt sem) sched
+    ∀ t1 t2 n i1 i2, holdsInst c t1 = some (n, i1) → holdsInst c t2 = some (n, i2) →
+      i1 = i2 ∧ ∃ e, kget c.table n = some e ∧ e.inst = some i1 ∧ 0 < e.pending := by
+  intro c t1 t2 n i1 i2 h1 h2
+  have hP : PInv c := pinv_crun cfg hinst sched _ (pinv_init store reqs)
+  rw [holdsInst_eq] at h1 h2
+  cases hp1 : c.pcs[t1]? with
+  | none => simp [hp1] at h1
+  | some pc1 =>
+    cases hp2 : c.pcs[t2]? with
+    | none => simp [hp2] at h2
+    | some pc2 =>
+      simp only [hp1] at h1
+      simp only [hp2] at h2
+      obtain ⟨e1, he1, hi1⟩ := hP.held t1 pc1 n i1 hp1 h1
+      obtain ⟨e2, he2, hi2⟩ := hP.held t2 pc2 n i2 hp2 h2
+      rw [he1] at he2; cases he2
+      rw [hi1] at hi2; cases hi2
+      refine ⟨rfl, e1, he1, hi1, ?_⟩
+      have hc := hP.count n
+      have hpos := cnt_pos n c.pcs t1 pc1 hp1 (pcInst_holds pc1 n i1 h1)
+      simp only [entPending, he1] at hc
+      omega
+
+/-- **Transparency under overlap.**  For every location semantics with `ReloadOK`, every TTL, any requests (several
+names, any number of overlapping holders per name), and **every** schedule of the atomic steps Open / call / Release:
+the answers, taken in the order in which they were determined (a failed open at its `Open`, everything else at its
+call), are exactly the answers of operating the locations directly in that order; and every thread's answer is in
+that list, with the thread's request.  So no request is ever served state that misses a write acknowledged before it.
+With existence checking on, overlapping requests must not erase the marker (`ReqKeeps`: a request that has passed the
+check runs its call later — direct operation has the same check-then-call gap). -/
+theorem cache_transparent_under_overlap (h : ReloadOK sem) (cfg : Cfg) (hinst : installs cfg = true)
+    (s0 : List (String × sem.S)) (reqs : List (Req sem)) (hk : ∀ r ∈ reqs, ReqKeeps sem cfg.checkExistence r)
+    (sched : List (Nat × Int)) :
+    let c := crun cfg (cinit s0 reqs : CSt sem) sched
+    (runD cfg.checkExistence { base := s0 } (logHist c)).2 = c.log.map (·.2) ∧
+    (∀ t o, answerOf c t = some o → ∃ r, reqs[t]? = some r ∧ (r, o) ∈ c.log) := by
+  intro c
+  obtain ⟨d', hD⟩ := dinv_crun h cfg hinst s0 sched _ _ (pinv_init s0 reqs) (dinv_init h cfg.checkExistence s0 reqs hk)
+  have hL : LInv reqs c := linv_crun cfg reqs sched _ (linv_init s0 reqs)
+  refine ⟨by rw [hD.lin], ?_⟩
+  intro t o ha
+  unfold answerOf at ha
+  cases hp : c.pcs[t]? with
+  | none => simp [hp] at ha
+  | some pc =>
+    have := hL t pc hp
+    cases pc with
+    | start r => simp [hp] at ha
+    | opened r i => simp [hp] at ha
+    | releasing n inst o' => simp [hp] at ha; subst ha; exact this
+    | done inst o' => simp [hp] at ha; subst ha; exact this
+
+/-! ## The hypotheses are satisfiable by a non-trivial instance; the former witnesses behave -/
+
+/-- the toy semantics satisfies `ReloadOK` (`toyReloadOK`, with `R l s := l = s`), and so does the toy System in which
+`clear` is carried out the way `ClearLocation` does it -/
+example : ReloadOK toySys := keepMark_reloadOK toyReloadOK _
+
+/-- the former witness of "`Pending` is a boolean": TTL 10; A and B open "y" and share instance 0; A releases after the
+TTL (B still holds: the entry stays); C is served instance 0 — no second load —; B writes `add 7` and releases; D,
+starting afterwards, sees 7.  The same answers under TTL forever. -/
+example :
     let reqs : List (Req toySem) := [.api "y" (.has 9), .api "y" (.add 7), .api "y" (.has 9), .api "y" (.has 7)]
     let sched : List (Nat × Int) :=
-      [(0,0),(0,0),(0,0),(1,1),(0,2),(0,20),(2,21),(2,21),(2,21),(2,21),(2,22),(1,23),(1,24),(3,25),(3,25),(3,25)]
-    outCodes (crun { ttl := .finite 10, checkExistence := false } (cinit [] reqs) sched) = [some 0, some 1, some 0, some 0] ∧
+      [(0,0),(1,1),(0,2),(0,20),(2,21),(2,21),(2,22),(1,23),(3,23),(1,24),(3,25),(3,25)]
+    outCodes (crun { ttl := .finite 10, checkExistence := false } (cinit [] reqs) sched) = [some 0, some 1, some 0, some 1] ∧
+    (crun { ttl := .finite 10, checkExistence := false } (cinit [] reqs) sched).loads = ["y"] ∧
     outCodes (crun { ttl := .forever, checkExistence := false } (cinit [] reqs) sched) = [some 0, some 1, some 0, some 1] := by
   decide
 
-/-- **Clear erases the `createdAt` marker, the cached entry is never re-checked.**  CheckExistence on:
-create "x"; clear "x"; add 5 to "x" — succeeds with TTL forever, NotFound with TTL never. -/
-theorem clear_breaks_transparency :
-    let h : List (Req toySem × Int × Int) := [(.create "x", 0, 0), (.api "x" .clear, 1, 1), (.api "x" (.add 5), 2, 2)]
-    ((runE { ttl := .forever, checkExistence := true } {} h).2.map Out.toyCode = [3, 1, 1]) ∧
-    ((runE { ttl := .never, checkExistence := true } {} h).2.map Out.toyCode = [3, 1, 2]) := by
+/-- the former witness of "Clear erases the marker": CheckExistence on; create "x"; clear "x"; add 5 to "x" — succeeds
+under TTL forever and under TTL never -/
+example :
+    let h : List (Req toySys × Int × Int) := [(.create "x", 0, 0), (.api "x" .clear, 1, 1), (.api "x" (.add 5), 2, 2)]
+    ((runE { ttl := .forever, checkExistence := true } {} h).2.map toySysCode = [3, 1, 1]) ∧
+    ((runE { ttl := .never, checkExistence := true } {} h).2.map toySysCode = [3, 1, 1]) := by
   decide
 
-/-- **An unchecked open that is never released (`GetLocation`, used for parents) defeats the existence check.**
-CheckExistence on, "p" never created: after `GetLocation p` a checked `add 5` to "p" succeeds and writes to its
-storage (TTL forever: always; TTL never: exactly once). -/
-theorem unchecked_open_bypasses_check :
+/-- the marker can still be removed by its own id; then the location is un-created under every TTL alike -/
+example :
+    let h : List (Req toySys × Int × Int) := [(.create "x", 0, 0), (.api "x" (.rem 0), 1, 1), (.api "x" (.add 5), 2, 2)]
+    ((runE { ttl := .forever, checkExistence := true } {} h).2.map toySysCode = [3, 1, 2]) ∧
+    ((runE { ttl := .never, checkExistence := true } {} h).2.map toySysCode = [3, 1, 2]) := by
+  decide
+
+/-- the former witness of "an unchecked open defeats the existence check": CheckExistence on, "p" never created: after
+`GetLocation p` the checked `add`s to "p" still fail and nothing is written, under TTL forever and under TTL never -/
+example :
     let h : List (Req toySem × Int × Int) := [(.api "p" (.add 5), 0, 0), (.peek "p", 1, 1), (.api "p" (.add 5), 2, 2), (.api "p" (.add 6), 3, 3)]
-    ((runE { ttl := .forever, checkExistence := true } {} h).2.map Out.toyCode = [2, 5, 1, 1]) ∧
-    ((runE { ttl := .never, checkExistence := true } {} h).2.map Out.toyCode = [2, 5, 1, 2]) ∧
-    (toyStoreOf (runE { ttl := .never, checkExistence := true } {} h).1 "p" = [5]) := by
+    ((runE { ttl := .forever, checkExistence := true } {} h).2.map Out.toyCode = [2, 5, 2, 2]) ∧
+    ((runE { ttl := .never, checkExistence := true } {} h).2.map Out.toyCode = [2, 5, 2, 2]) ∧
+    (toyStoreOf (runE { ttl := .forever, checkExistence := true } {} h).1 "p" = []) := by
   decide
 
-/-! ## The hypotheses are satisfiable by a non-trivial instance -/
-
-/-- the toy semantics (facts = numbers, memory and storage are lists, `add`/`has`/`clear`) satisfies `ReloadOK`
-with `R l s := l = s` -/
-example : ReloadOK toySem where
-  R := fun l s => l = s
-  load_R := fun _ _ => rfl
-  exec_R := by intro l s op h; cases h; cases op <;> rfl
-  exec_eq := by intro l l' s op h h'; cases h; cases h'; rfl
-  created_eq := by intro l l' s h h'; cases h; cases h'; rfl
-  mark_R := by intro l s h; cases h; rfl
-  mark_eq := by intro l l' s h h'; cases h; cases h'; rfl
-  mark_created := by intro l s; rfl
-
-/-- `add` and `has` keep the marker; a history of creates, adds and reads meets `ReqOK` with checking on -/
-example : ∀ x ∈ ([(.create "x", 0, 1), (.api "x" (.add 5), 2, 3), (.api "x" (.has 5), 4, 5)] : List (Req toySem × Int × Int)),
-    ReqOK toySem true x.1 := by
-  intro x hx
-  simp only [List.mem_cons, List.mem_nil_iff, or_false] at hx
-  rcases hx with h | h | h <;> subst h
+/-- `add` and `has` keep the marker: requests that meet `ReqKeeps` with checking on exist -/
+example : ∀ r ∈ ([.create "x", .api "x" (.add 5), .api "x" (.has 5), .peek "x"] : List (Req toySem)), ReqKeeps toySem true r := by
+  intro r hr
+  simp only [List.mem_cons, List.mem_nil_iff, or_false] at hr
+  rcases hr with h | h | h | h <;> subst h
   · trivial
+  · exact fun _ => toy_add_keeps 5
   · intro _ l s hl; exact hl
-  · intro _ l s hl; exact hl
+  · trivial
 
-/-- window-free schedules exist and are not trivial: three threads, thread 1 first -/
-example : windowFree { ttl := .never, checkExistence := false } (cinit [] (List.replicate 3 (Req.peek "y")) : CSt toySem)
-    [(1,0),(1,1),(0,2),(2,3),(1,4),(0,5),(2,6),(1,7)] = true := by
+/-- `single_load` is not vacuous: three threads open "y", thread 1 first; all overlap, nobody is done -/
+example :
+    let c := crun { ttl := .never, checkExistence := false } (cinit [] (List.replicate 3 (Req.peek "y")) : CSt toySem)
+      [(1,0),(0,2),(2,3),(1,4),(0,5)]
+    (∀ t, t < 3 → isDone c t = false) ∧ c.loads = ["y"] ∧ [instOf c 0, instOf c 1, instOf c 2] = [some 0, some 0, some 0] := by
   decide
 
 /-! ## C17 ∘ C06: the hypothesis `ReloadOK` discharged for the concrete State model
@@ -140,63 +213,70 @@ example : windowFree { ttl := .never, checkExistence := false } (cinit [] (List.
 `RulioProofs/CacheInst.lean` instantiates the abstract location semantics with the State model of
 `RulioModel/State.lean` (`stSem k`: instances `St`, storage = stored documents + id generator, `load` = `St.reload`
 of a new instance over the storage, `exec` = `St.stepOp` with the full answer, `created` / `mark` = the `!.createdAt`
-property fact) and proves `ReloadOK` from the reload theorems of C06:
-* linear kind — in full (`stSem_reloadOK_linear`, from `reload_linear_identity`);
-* indexed kind — on the fragment `idxFrag q` (`idxSem_reloadOK_partial`, from `reload_in_step` /
+property fact; `sysSem k` = the same with `Clear` carried out the way `ClearLocation` does it) and proves `ReloadOK`
+from the reload theorems of C06:
+* linear kind — in full (`sysSem_reloadOK_linear`, from `reload_linear_identity`);
+* indexed kind — on the fragment `idxFrag q` (`idxSysSem_reloadOK_partial`, from `reload_in_step` /
   `in_step_observations`); for the unrestricted indexed semantics `ReloadOK` is *false*
   (`stSem_indexed_not_reloadOK`: expiry). -/
 
-/-- **Sequential transparency, linear State (no abstract hypothesis).**  For the linear `State` implementation, every
-cache configuration, every start-up storage (any stored documents, any state of the id generator), every history of
-`Add` / `Rem` / `Get` / `Search` / `FindRules` / `Clear` requests (each with its own Location clock, expiry and
-cascades included), `CreateLocation` and `GetLocation`, and every two sequences of cache clock readings: the answers
-through the System — full answers: ids, flags, facts, search results, rules, in order — equal the answers of
-operating each location directly (loaded once, never reloaded).  `ReloadOK` is `stSem_reloadOK_linear`, proved from
-C06 (`reload_linear_identity`).  `hok` is the request condition of `cache_transparent_seq` (it is vacuous when
-existence checking is off). -/
+/-- **Sequential transparency, linear State (no abstract hypothesis, no side condition).**  For the linear `State`
+implementation, every cache configuration, every start-up storage (any stored documents, any state of the id
+generator), every history of `Add` / `Rem` / `Get` / `Search` / `FindRules` / `ClearLocation` requests (each with its
+own Location clock, expiry and cascades included; also a `Rem` of the marker's own id), `CreateLocation` and
+`GetLocation`, with existence checking on or off, and every two sequences of cache clock readings: the answers through
+the System — full answers: ids, flags, facts, search results, rules, in order — equal the answers of operating each
+location directly (loaded once, never reloaded).  `ReloadOK` is `sysSem_reloadOK_linear`, proved from C06
+(`reload_linear_identity`). -/
 theorem cache_transparent_seq_state (tm : Int) (stamp : String) (cfg : Cfg) (s0 : List (String × StStore))
-    (h1 h2 : List (Req (stSem .linear tm stamp) × Int × Int)) (hs : SameReqs h1 h2)
-    (hok : ∀ x ∈ h1, ReqOK (stSem .linear tm stamp) cfg.checkExistence x.1) :
+    (h1 h2 : List (Req (sysSem .linear tm stamp) × Int × Int)) (hs : SameReqs h1 h2) :
     (runE cfg { store := s0 } h1).2 = (runD cfg.checkExistence { base := s0 } h2).2 :=
-  cache_transparent_seq (stSem_reloadOK_linear tm stamp) cfg s0 h1 h2 hs hok
+  cache_transparent_seq (sysSem_reloadOK_linear tm stamp) cfg s0 h1 h2 hs
 
 /-- **TTL independence, linear State (no abstract hypothesis).**  Two Systems over linear States that differ only in
 TTL / CachePending and in what their clocks show return the same answers for the same request history. -/
 theorem cache_ttl_independent_state (tm : Int) (stamp : String) (cfg1 cfg2 : Cfg)
     (hc : cfg1.checkExistence = cfg2.checkExistence) (s0 : List (String × StStore))
-    (h1 h2 : List (Req (stSem .linear tm stamp) × Int × Int)) (hs : SameReqs h1 h2)
-    (hok : ∀ x ∈ h1, ReqOK (stSem .linear tm stamp) cfg1.checkExistence x.1)
-    (hok2 : ∀ x ∈ h2, ReqOK (stSem .linear tm stamp) cfg2.checkExistence x.1) :
+    (h1 h2 : List (Req (sysSem .linear tm stamp) × Int × Int)) (hs : SameReqs h1 h2) :
     (runE cfg1 { store := s0 } h1).2 = (runE cfg2 { store := s0 } h2).2 :=
-  cache_ttl_independent (stSem_reloadOK_linear tm stamp) cfg1 cfg2 hc s0 h1 h2 hs hok hok2
+  cache_ttl_independent (sysSem_reloadOK_linear tm stamp) cfg1 cfg2 hc s0 h1 h2 hs
+
+/-- **Transparency under overlap, linear State (no abstract hypothesis).**  `cache_transparent_under_overlap` for the
+linear `State` implementation: any requests, any number of overlapping holders, every schedule of Open / call /
+Release, every TTL. -/
+theorem cache_transparent_under_overlap_state (tm : Int) (stamp : String) (cfg : Cfg) (hinst : installs cfg = true)
+    (s0 : List (String × StStore)) (reqs : List (Req (sysSem .linear tm stamp)))
+    (hk : ∀ r ∈ reqs, ReqKeeps (sysSem .linear tm stamp) cfg.checkExistence r) (sched : List (Nat × Int)) :
+    let c := crun cfg (cinit s0 reqs : CSt (sysSem .linear tm stamp)) sched
+    (runD cfg.checkExistence { base := s0 } (logHist c)).2 = c.log.map (·.2) ∧
+    (∀ t o, answerOf c t = some o → ∃ r, reqs[t]? = some r ∧ (r, o) ∈ c.log) :=
+  cache_transparent_under_overlap (sysSem_reloadOK_linear tm stamp) cfg hinst s0 reqs hk sched
 
 /-- **Sequential transparency, indexed State, on the fragment of C06 (partial).**  For the indexed `State`
-implementation restricted to `idxSem q`: start-up storages written by such States (`IdxS q`), requests whose
+implementation restricted to `idxSysSem q`: start-up storages written by such States (`IdxS q`), requests whose
 operations lie in `idxFrag q` — `Add` of facts without `ttl` / `expires` whose rule (if any) can leave the pattern
-index (and, when `q`, ground data), `Rem` of non-variable ids (cascades included), `Get`, `Clear`, and when `q`
-`Search` with linear `patOK` patterns — plus `CreateLocation` / `GetLocation`: the answers through the System equal
-the answers of direct operation; search answers are compared as multisets of (id, bindings).
+index (and, when `q`, ground data), `Rem` of non-variable ids (cascades included), `Get`, `ClearLocation`, and when `q`
+`Search` with linear `patOK` patterns — plus `CreateLocation` / `GetLocation`, existence checking on or off: the
+answers through the System equal the answers of direct operation; search answers are compared as multisets of (id,
+bindings).
 Full statement (all `ROp`s, all storages): FALSE as an instance of `cache_transparent_seq`, because its hypothesis
 `ReloadOK` fails for the unrestricted indexed semantics (`stSem_indexed_not_reloadOK`); what is missing is listed at
 `idxSem_reloadOK_partial` (expiry: lazily purged documents; `Rem` with rules that cannot be un-indexed; `Search`
 outside the C02/C05 fragment; `FindRules`). -/
 theorem cache_transparent_seq_state_partial (q : Bool) (tm : Int) (stamp : String)
     (hm : idxFrag q (.add "" (markerFact stamp) tm) = true) (cfg : Cfg) (s0 : List (String × IdxS q))
-    (h1 h2 : List (Req (idxSem q tm stamp hm) × Int × Int)) (hs : SameReqs h1 h2)
-    (hok : ∀ x ∈ h1, ReqOK (idxSem q tm stamp hm) cfg.checkExistence x.1) :
+    (h1 h2 : List (Req (idxSysSem q tm stamp hm) × Int × Int)) (hs : SameReqs h1 h2) :
     (runE cfg { store := s0 } h1).2 = (runD cfg.checkExistence { base := s0 } h2).2 :=
-  cache_transparent_seq (idxSem_reloadOK_partial q tm stamp hm) cfg s0 h1 h2 hs hok
+  cache_transparent_seq (idxSysSem_reloadOK_partial q tm stamp hm) cfg s0 h1 h2 hs
 
 /-- **TTL independence, indexed State, on the fragment of C06 (partial)**: same restriction as
 `cache_transparent_seq_state_partial`. -/
 theorem cache_ttl_independent_state_partial (q : Bool) (tm : Int) (stamp : String)
     (hm : idxFrag q (.add "" (markerFact stamp) tm) = true) (cfg1 cfg2 : Cfg)
     (hc : cfg1.checkExistence = cfg2.checkExistence) (s0 : List (String × IdxS q))
-    (h1 h2 : List (Req (idxSem q tm stamp hm) × Int × Int)) (hs : SameReqs h1 h2)
-    (hok : ∀ x ∈ h1, ReqOK (idxSem q tm stamp hm) cfg1.checkExistence x.1)
-    (hok2 : ∀ x ∈ h2, ReqOK (idxSem q tm stamp hm) cfg2.checkExistence x.1) :
+    (h1 h2 : List (Req (idxSysSem q tm stamp hm) × Int × Int)) (hs : SameReqs h1 h2) :
     (runE cfg1 { store := s0 } h1).2 = (runE cfg2 { store := s0 } h2).2 :=
-  cache_ttl_independent (idxSem_reloadOK_partial q tm stamp hm) cfg1 cfg2 hc s0 h1 h2 hs hok hok2
+  cache_ttl_independent (idxSysSem_reloadOK_partial q tm stamp hm) cfg1 cfg2 hc s0 h1 h2 hs
 
 /-- **the restriction of the indexed kind is necessary**: no relation `R` makes `ReloadOK` true for the unrestricted
 indexed State — a document that expires is dropped (and erased from storage) by a `Load` after its expiry, kept by an
@@ -206,13 +286,17 @@ theorem reloadOK_indexed_unrestricted_false (tm : Int) (stamp : String) :
     ReloadOK (stSem .indexed tm stamp) → False :=
   stSem_indexed_not_reloadOK tm stamp
 
+/-- `ClearLocation` on the linear State never erases the marker (`clear_keeps_existence` instantiated) -/
+example (tm : Int) (stamp : String) : KeepsMarker (sysSem .linear tm stamp) .clear := sysSem_clear_keeps tm stamp
+
 /-- `cache_transparent_seq_state` applies to `exHistLin` (locations "home" and "work": create, add with ttl, add with
 a generated id, add of a rule, searches before and after the expiry, a rule lookup, a removal, a get, an unchecked
-open, a clear), for every TTL, any CachePending, any start-up storage, and the direct run may read other clocks -/
-example (ttl : TTL) (cp : Bool) (s0 : List (String × StStore)) :
-    (runE { ttl := ttl, checkExistence := false, cachePending := cp } { store := s0 } exHistLin).2 =
-      (runD false { base := s0 } (reclock (· * 7 + 1000) exHistLin)).2 :=
-  cache_transparent_seq_state 0 exStamp _ s0 _ _ (sameReqs_reclock _ _) (fun x _ => reqOK_unchecked _ x.1)
+open, a clear), for every TTL, any CachePending, existence checking on or off, any start-up storage, and the direct run
+may read other clocks -/
+example (ttl : TTL) (cp chk : Bool) (s0 : List (String × StStore)) :
+    (runE { ttl := ttl, checkExistence := chk, cachePending := cp } { store := s0 } exHistLin).2 =
+      (runD chk { base := s0 } (reclock (· * 7 + 1000) exHistLin)).2 :=
+  cache_transparent_seq_state 0 exStamp _ s0 _ _ (sameReqs_reclock _ _)
 
 /-- … the answers of its first five requests through the System (the matcher is defined by well-founded recursion, so
 requests that reach it are not evaluated by `decide`): created, four ids acknowledged -/
@@ -220,24 +304,27 @@ example : (runE { ttl := .finite 5, checkExistence := false } {} (exHistLin.take
     [101, 1, 1, 1, 1] := by
   decide +kernel
 
-/-- with existence checking on: `exHistChk` (an add before the location exists is NotFound, creates, adds that keep
-the marker, a location never created) meets `ReqOK`, so TTL never and TTL forever agree -/
+/-- with existence checking on: `exHistChk` (an add before the location exists, creates, adds, a `ClearLocation`, an
+unchecked open of a location that is never created followed by a checked request to it, the removal of the marker by
+its id followed by a checked request): TTL never and TTL forever agree -/
 example : (runE { ttl := .never, checkExistence := true } {} exHistChk).2 =
     (runE { ttl := .forever, checkExistence := true } {} exHistChk).2 :=
   cache_ttl_independent_state 0 exStamp { ttl := .never, checkExistence := true } { ttl := .forever, checkExistence := true }
-    rfl [] _ _ (sameReqs_refl _) exHistChk_ok exHistChk_ok
+    rfl [] _ _ (sameReqs_refl _)
 
-example : (runE { ttl := .never, checkExistence := true } {} exHistChk).2.map stOutCode = [100, 101, 1, 100, 102, 1] := by
+/-- … its first eight answers: NotFound, created, acknowledged, peeked, NotFound (never created, although cached by the
+unchecked open), not created again, cleared, acknowledged (the marker survived the clear) -/
+example : (runE { ttl := .forever, checkExistence := true } {} (exHistChk.take 8)).2.map stOutCode =
+    [100, 101, 1, 103, 100, 102, 5, 1] := by
   decide +kernel
 
 /-- `cache_transparent_seq_state_partial` applies to `exHistIdx` (indexed kind, fragment with queries; "home" and
 "work": create, add, overwrite — which leaves stale ids in the live term index —, a dependent fact, searches, a
 removal with its cascade, a get, an unchecked open, a clear), for every TTL and any start-up storage of the fragment -/
-example (ttl : TTL) (cp : Bool) (s0 : List (String × IdxS true)) :
-    (runE { ttl := ttl, checkExistence := false, cachePending := cp } { store := s0 } exHistIdx).2 =
-      (runD false { base := s0 } (reclock (· + 5) exHistIdx)).2 :=
+example (ttl : TTL) (cp chk : Bool) (s0 : List (String × IdxS true)) :
+    (runE { ttl := ttl, checkExistence := chk, cachePending := cp } { store := s0 } exHistIdx).2 =
+      (runD chk { base := s0 } (reclock (· + 5) exHistIdx)).2 :=
   cache_transparent_seq_state_partial true 0 exStamp exMarkOK _ s0 _ _ (sameReqs_reclock _ _)
-    (fun x _ => reqOK_unchecked _ x.1)
 
 /-- … the answers of its first five requests: created, the adds (one overwriting) and the dependent acknowledged -/
 example : (runE { ttl := .never, checkExistence := false } {} (exHistIdx.take 5)).2.map idxOutCode =
